@@ -68,6 +68,11 @@ func checkEncoders(r *evid.Run, d *DocState, concs []*tok.Conc) {
 				o := real.OutputRoot(buildRoot(t, c), er.opt)
 				r.Count("real_calls", 1)
 				checkDecoded(r, d, c, doc, fmt.Sprintf("root-%s", er.name), er, o, d.Forest[i:i+1])
+				if (d.N+i)%3 == 0 { // the deprecated alias
+					oa := real.OutputRootAlias(buildRoot(t, c), er.opt)
+					r.Count("real_calls", 1)
+					checkDecoded(r, d, c, doc, fmt.Sprintf("root-%s/alias", er.name), er, oa, d.Forest[i:i+1])
+				}
 			}
 		}
 	}
